@@ -91,10 +91,13 @@ struct PgmClass {
         if (short_segments) n = (size_t) cfg.range(118000, 125000);
         draw_env(p, env, large, g.tsan);
         sim::Env e = env_from_plan(p);
-        std::string sig = gen_keys_into<K>(p, n, E, chunks_for(e, n), cfg, work, short_segments);
+        std::string sig;
+        bool scale = scale_slot(g) && std::is_integral_v<K> && g.prop != "C04";
+        if (scale) sig = set_scale_recipe<K>(p, E, cfg, work, false);
+        else sig = gen_keys_into<K>(p, n, E, chunks_for(e, n), cfg, work, short_segments);
         p.set("motifs", sig);
         p.set("qseed", work.next() >> 1);
-        p.set("qmax", large ? 1500 : 2000);
+        if (!scale) p.set("qmax", large ? 1500 : 2000);
         // schedule-independence: large runs are built a second time under another schedule
         p.set("sched2", large && cfg.chance(500) ? (env.next() >> 1) | 1 : 0);
         (void) st;
